@@ -601,6 +601,9 @@ class Sim:
         def obs_array():
             r = rng.random()
             shape = rng.choice(["3", "n3", "n3", "nm3"])
+            if rng.random() < 0.04:
+                a = [gen.vec3(rng), [None, 0.5, 0.25]]  # an observer with a NaN coordinate
+                return {"arr": a} if rng.random() < 0.5 else {"list": a}
             if shape == "3":
                 a = gen.vec3(rng)
             elif shape == "n3":
